@@ -77,21 +77,23 @@ def corr_cases(strength, rng):
     scr = G.screen(2, 2, [7, 7, 7, 9, 9, 5, 5, 5])
     # exhaustive sweep: every non-empty sub-complex as support_elements.  SNC shares _compute_rwg0_space_data with
     # RWG, so the quick tier sweeps it on a seeded third of the subsets only.
+    # Quick tier: the P1/RWG sweep is complete on the octahedron and covers a seeded third of the screen's sub-complexes.
     for name, grid in (("octahedron", octa), ("screen2x2", scr)):
         subs = subsets(grid.number_of_elements)
-        add_group(name + "/all-subcomplexes", grid, subs, ["DP0", "DP1", "P1", "RWG"])
-        snc = subs if thorough else [subs[i] for i in sorted(rng.choice(len(subs), len(subs) // 3, replace=False))]
-        add_group(name + "/all-subcomplexes-snc", grid, snc, ["SNC"])
+        part = lambda frac: subs if thorough else [subs[i] for i in sorted(rng.choice(len(subs), int(len(subs) * frac), replace=False))]
+        add_group(name + "/all-subcomplexes", grid, subs if name == "octahedron" else part(1.0 / 3), ["P1", "RWG"])
+        add_group(name + "/subcomplexes-dp-snc", grid, part(1.0 / 6), ["DP0", "DP1", "SNC"])
     # segments of multi-domain grids (including non-contiguous indices and an absent index), whole grid, swapped normals
     for name, grid, doms in (("octahedron", octa, [0, 1, 2, 5]), ("screen2x2", scr, [5, 7, 9]),
                              ("two-components", G.two_components(), [0, 3]), ("cube12", G.cube12([1, 1, 2, 2, 3, 3, 4, 4, 6, 6, 8, 8]), [1, 2, 3, 4, 6, 8]),
                              ("torus3x3", G.torus(), [0, 1, 2])):
         sels = [(None, None)]
         segsets = [list(c) for r in range(1, len(doms) + 1) for c in itertools.combinations(doms, r)]
-        if len(segsets) > 15 and not thorough:
-            segsets = [segsets[i] for i in sorted(rng.choice(len(segsets), 15, replace=False))]
+        if len(segsets) > 6 and not thorough:
+            segsets = [segsets[i] for i in sorted(rng.choice(len(segsets), 6, replace=False))]
         sels += [(None, s) for s in segsets] + [(None, [doms[0], 77])]
-        add_group(name + "/segments", grid, sels, allk, swapped_list=(None, [doms[0]], doms[-2:]))
+        add_group(name + "/segments", grid, sels, allk,
+                  swapped_list=(None, [doms[0]], doms[-2:]) if thorough else (None, doms[-2:]))
     # non-manifold fan and random soups (tables with 3 elements on an edge, isolated pieces)
     fan = G.fan()
     add_group("fan/all-subcomplexes", fan, subsets(fan.number_of_elements), allk)
@@ -165,20 +167,25 @@ def search(strength, rng, replay=None):
         n = grid.number_of_elements
         sels = [None]
         masks = list(range(1, 2 ** n)) if n <= 8 else []
-        pick = masks if (thorough and n <= 8) else ([masks[i] for i in rng.choice(len(masks), 12, replace=False)] if masks else [])
+        pick = masks if (thorough and n <= 8) else ([masks[i] for i in rng.choice(len(masks), 6, replace=False)] if masks else [])
         sels += [[i for i in range(n) if (m >> i) & 1] for m in pick]
         if n > 8:
-            for _ in range(6 if thorough else 3):
+            for _ in range(6 if thorough else 2):
                 k = int(rng.integers(1, n))
                 sels.append(sorted(int(x) for x in rng.choice(n, k, replace=False)))
         for se in sels:
             support0 = [True] * n if se is None else [i in se for i in range(n)]
-            for kind in ("P1", "RWG", "SNC"):
+            doms = sorted(set(t["dom"]))
+            for kind, sw in (("P1", None), ("RWG", None), ("SNC", None), ("SNC", doms[:1]), ("RWG", doms[:1]), ("SNC", doms)):
+                if sw is not None and len(doms) < 2:
+                    continue
                 for incl, trunc in OPTS4:
-                    sp = G.make_space(grid, kind, se=se, incl=incl, trunc=trunc)
+                    if sw is not None and (incl, trunc) not in ((False, True), (True, False)):
+                        continue
+                    sp = G.make_space(grid, kind, se=se, swapped=sw, incl=incl, trunc=trunc)
                     evals += 1
                     desc = {"grid": gname, "kind": kind, "support_elements": se, "include_boundary_dofs": incl,
-                            "truncate_at_segment_edge": trunc}
+                            "truncate_at_segment_edge": trunc, "swapped_normals": sw}
                     # -- dof count against the documented rule
                     nsel = len(selected_vertices_spec(t, support0, incl, trunc)) if kind == "P1" else \
                         len(selected_edges_spec(t, support0, incl))
@@ -195,6 +202,7 @@ def search(strength, rng, replay=None):
                         continue
                     # -- one-sided traces of a random function on every edge shared by two support elements
                     coeffs = rng.integers(-4, 5, size=sp.global_dof_count).astype(float) + 0.5
+                    gf = bempp_cl.api.GridFunction(sp, coefficients=coeffs)
                     supp = sp.support
                     for edge, nb in enumerate(t["enbrs"]):
                         sn = [e for e in nb if supp[e]]
@@ -209,7 +217,7 @@ def search(strength, rng, replay=None):
                         vals = []
                         for e in sn:
                             lp = edge_local_points(t, e, edge, params)
-                            vals.append(eval_gf(sp, coeffs, e, lp))
+                            vals.append(gf.evaluate(e, lp))
                         evals += 1
                         va = grid.vertices[:, a]
                         vb = grid.vertices[:, b]
@@ -240,16 +248,23 @@ def search(strength, rng, replay=None):
                             j = float(np.max(np.abs(js[0] - js[1])))
                             worst["snc_tangential_jump"] = max(worst["snc_tangential_jump"], j)
                             if j > 1e-11:
-                                fail("C09:snc-tangential-jump",
-                                     "SNC tangential component jumps by %.3e across an interior edge" % j,
-                                     dict(desc, edge=edge, elements=sn))
+                                nms = [int(sp.normal_multipliers[e]) for e in sn]
+                                if nms[0] != nms[1]:
+                                    fail("C09:snc-tangential-jump:swapped-normals-interface",
+                                         "SNC function jumps tangentially (%.3e) across an interior edge between an "
+                                         "element with swapped normal and one without" % j,
+                                         dict(desc, edge=edge, elements=sn, normal_multipliers=nms))
+                                else:
+                                    fail("C09:snc-tangential-jump",
+                                         "SNC tangential component jumps by %.3e across an interior edge" % j,
+                                         dict(desc, edge=edge, elements=sn))
         # -- partition of unity on the whole grid (closed grid, or boundary dofs included)
         pts = np.array([[0.2, 0.6, 1.0 / 3], [0.3, 0.1, 1.0 / 3]])
         for kind, kw in (("DP0", {}), ("DP1", {}), ("P1", {"incl": True, "trunc": True})):
             sp = G.make_space(grid, kind, **kw)
-            ones = np.ones(sp.global_dof_count)
+            gf1 = bempp_cl.api.GridFunction(sp, coefficients=np.ones(sp.global_dof_count))
             for e in range(n):
-                v = eval_gf(sp, ones, e, pts)
+                v = gf1.evaluate(e, pts)
                 evals += 1
                 d = float(np.max(np.abs(v - 1.0)))
                 worst["pou"] = max(worst["pou"], d)
